@@ -4,7 +4,7 @@
 
     Simulation: a parser state [s] with [off s = k] is related to the suffix
     [skipn k (firstn len content)] (predicate [sfx k l]); one lemma per function. *)
-From CJ Require Import Base Dbl Tree ParseDefs ParseSpec.
+From CJ Require Import Base Dbl Tree LibcNum ParseDefs ParseSpec.
 Local Open Scope nat_scope.
 
 (** * generic list facts *)
@@ -836,10 +836,12 @@ Section Refine.
       intros Hs Hd HB. unfold ParseDefs.parse_array.
       destruct (c_CJSON_NESTING_LIMIT <=? dep s)%Z; [cbn [sim_res]; eexists; reflexivity|].
       destruct (sfx_cons _ _ _ Hs) as [Hlt [Hrd Hr]].
-      cbn [set_dep off]. rewrite Hrd. cbn [bind]. rewrite Z.eqb_refl. cbn [negb].
-      destruct (bsw_sim (add_off (mkpst (off s) (dep s + 1) (req s) (live s)) 1) r) as [s1 [E1 [Hd1 [Hpost [_ Hmono]]]]].
-      { cbn [add_off set_off off]. rewrite Nat.add_1_r. exact Hr. }
-      cbn [add_off set_off off dep] in Hd1, Hmono.
+      cbv zeta. set (s0 := set_dep s (dep s + 1)).
+      assert (Hoff0 : off s0 = off s) by reflexivity. assert (Hdep0 : dep s0 = (dep s + 1)%Z) by reflexivity.
+      rewrite Hoff0, Hrd. cbn [bind]. rewrite Z.eqb_refl. cbn [negb].
+      destruct (bsw_sim (add_off s0 1) r) as [s1 [E1 [Hd1 [Hpost [_ Hmono]]]]].
+      { cbn [add_off set_off off]. rewrite Hoff0, Nat.add_1_r. exact Hr. }
+      cbn [add_off set_off off dep] in Hd1, Hmono. rewrite Hoff0 in Hmono. rewrite Hdep0 in Hd1.
       rewrite E1. cbn [bind]. unfold array_l. pose proof (drop_ws_length r) as Hdl.
       destruct (drop_ws r) as [|c1 r1] eqn:Edw; cbn [ws_post] in Hpost.
       - (* only whitespace after the bracket *)
@@ -893,6 +895,7 @@ Section Refine.
       { destruct (sfx_cons _ _ _ Hs) as [Hlt _]. unfold ParseDefs.can_access. apply Nat.ltb_lt. cbn [off s1]. lia. }
       rewrite Hca. cbn [negb].
       destruct (bsw_sim (add_off s1 1) (x0 :: l0') Hs) as [s2 [E2 [Hd2 [Hpost [Hlt2 _]]]]].
+      unfold s1 in Hd2. cbn [add_off set_off dep] in Hd2.
       rewrite E2. cbn [bind]. pose proof (drop_ws_length (x0 :: l0')) as Hdl.
       assert (Hoff2 : off s2 < len).
       { apply Hlt2. destruct (sfx_cons _ _ _ Hs) as [Hlt _]. exact Hlt. }
@@ -940,13 +943,15 @@ Section Refine.
       intros Hs Hd HB. unfold ParseDefs.parse_object.
       destruct (c_CJSON_NESTING_LIMIT <=? dep s)%Z; [cbn [sim_res]; eexists; reflexivity|].
       destruct (sfx_cons _ _ _ Hs) as [Hlt [Hrd Hr]].
-      assert (Hca0 : can_access (set_dep s (dep s + 1)) 0 = true).
-      { unfold ParseDefs.can_access. cbn [set_dep off]. apply Nat.ltb_lt. lia. }
+      cbv zeta. set (s0 := set_dep s (dep s + 1)).
+      assert (Hoff0 : off s0 = off s) by reflexivity. assert (Hdep0 : dep s0 = (dep s + 1)%Z) by reflexivity.
+      assert (Hca0 : can_access s0 0 = true).
+      { unfold ParseDefs.can_access. rewrite Hoff0. apply Nat.ltb_lt. lia. }
       rewrite Hca0. cbn [negb].
-      cbn [set_dep off]. rewrite Hrd. cbn [bind]. rewrite Z.eqb_refl. cbn [negb].
-      destruct (bsw_sim (add_off (mkpst (off s) (dep s + 1) (req s) (live s)) 1) r) as [s1 [E1 [Hd1 [Hpost [_ Hmono]]]]].
-      { cbn [add_off set_off off]. rewrite Nat.add_1_r. exact Hr. }
-      cbn [add_off set_off off dep] in Hd1, Hmono.
+      rewrite Hoff0, Hrd. cbn [bind]. rewrite Z.eqb_refl. cbn [negb].
+      destruct (bsw_sim (add_off s0 1) r) as [s1 [E1 [Hd1 [Hpost [_ Hmono]]]]].
+      { cbn [add_off set_off off]. rewrite Hoff0, Nat.add_1_r. exact Hr. }
+      cbn [add_off set_off off dep] in Hd1, Hmono. rewrite Hoff0 in Hmono. rewrite Hdep0 in Hd1.
       rewrite E1. cbn [bind]. unfold object_l. pose proof (drop_ws_length r) as Hdl.
       destruct (drop_ws r) as [|c1 r1] eqn:Edw; cbn [ws_post] in Hpost.
       - cbn [sim_res]. destruct Hpost as [Hend | [c [Hc Hc32]]].
@@ -979,4 +984,193 @@ Section Refine.
     Qed.
   End Loops.
 
+  (** * values *)
+  Lemma value_l_nil f d : value_l strtod f d [] = None.
+  Proof. destruct f; reflexivity. Qed.
+
+  Lemma stuck_no_read s n : stuck (off s) -> 2 <= n -> can_read s n = false.
+  Proof.
+    intros H Hn. unfold ParseDefs.can_read. apply Nat.leb_gt. destruct H as [H | [c [H _]]].
+    - lia.
+    - apply sfx_off in H. cbn [length] in H. lia.
+  Qed.
+
+  Lemma parse_value_stuck f s : stuck (off s) -> exists s', parse_value (S f) s = Ok (None, s').
+  Proof.
+    intros H. cbn [ParseDefs.parse_value].
+    rewrite !(stuck_no_read s) by (exact H || lia). cbn [bind].
+    destruct (stuck_peek s H) as [Hca | [Hca [c [Hrd Hc]]]]; rewrite Hca; cbn [negb]; [eexists; reflexivity|].
+    rewrite Hrd. cbn [bind].
+    rewrite (ws_small_ne c 34), (ws_small_ne c 45), (ws_small_ne c 91), (ws_small_ne c 123) by lia.
+    destruct (Z.leb_spec 48 c); [lia|]. cbn [andb orb]. eexists; reflexivity.
+  Qed.
+
+  Lemma parse_value_sim : forall fuel s l, sfx (off s) l -> length l < fuel ->
+    sim_res (parse_value fuel s) (value_l strtod fuel (dep s) l) (dep s) (length l).
+  Proof.
+    induction fuel as [|f IH]; intros s l Hs Hf; [lia|].
+    cbn [ParseDefs.parse_value value_l].
+    (* null *)
+    rewrite (lit_test_sim s l [110; 117; 108; 108]%Z 4 Hs eq_refl). cbn [bind].
+    destruct (starts [110; 117; 108; 108]%Z l) as [r1|] eqn:E1; cbn [is_some].
+    { destruct (starts_sfx _ _ _ _ Hs E1) as [Hr1 Hl1]. cbn [length] in Hr1, Hl1.
+      cbn [sim_res]. eexists. split; [reflexivity|]. cbn [add_off set_off off dep].
+      split; [exact Hr1|]. split; [reflexivity | lia]. }
+    (* false *)
+    rewrite (lit_test_sim s l [102; 97; 108; 115; 101]%Z 5 Hs eq_refl). cbn [bind].
+    destruct (starts [102; 97; 108; 115; 101]%Z l) as [r2|] eqn:E2; cbn [is_some].
+    { destruct (starts_sfx _ _ _ _ Hs E2) as [Hr1 Hl1]. cbn [length] in Hr1, Hl1.
+      cbn [sim_res]. eexists. split; [reflexivity|]. cbn [add_off set_off off dep].
+      split; [exact Hr1|]. split; [reflexivity | lia]. }
+    (* true *)
+    rewrite (lit_test_sim s l [116; 114; 117; 101]%Z 4 Hs eq_refl). cbn [bind].
+    destruct (starts [116; 114; 117; 101]%Z l) as [r3|] eqn:E3; cbn [is_some].
+    { destruct (starts_sfx _ _ _ _ Hs E3) as [Hr1 Hl1]. cbn [length] in Hr1, Hl1.
+      cbn [sim_res]. eexists. split; [reflexivity|]. cbn [add_off set_off off dep].
+      split; [exact Hr1|]. split; [reflexivity | lia]. }
+    destruct l as [|c r].
+    { rewrite (can_access0_nil _ Hs). cbn [negb sim_res]. eexists; reflexivity. }
+    rewrite (can_access0_cons _ _ _ Hs). cbn [negb].
+    destruct (sfx_cons _ _ _ Hs) as [Hlt [Hrd Hr]]. rewrite Hrd. cbn [bind].
+    destruct (c =? 34)%Z eqn:E34.
+    { pose proof (parse_string_sim s c r Hs) as H. rewrite E34 in H.
+      destruct (string_l r) as [[str rest]|]; cbn [sim_res] in *.
+      - destruct H as [s' [E' [Hs' [Hd' Hl']]]]. rewrite E'. cbn [bind].
+        exists s'. split; [reflexivity|]. split; [exact Hs'|]. split; [exact Hd' | exact Hl'].
+      - destruct H as [s' E']. rewrite E'. cbn [bind]. eexists; reflexivity. }
+    destruct ((c =? 45) || (48 <=? c) && (c <=? 57))%Z.
+    { apply parse_number_sim. exact Hs. }
+    cbn [length] in Hf.
+    assert (Hstk : forall s0, stuck (off s0) -> exists s', parse_value f s0 = Ok (None, s')).
+    { destruct f as [|f']; [lia|]. intros s0 H0. apply parse_value_stuck. exact H0. }
+    assert (Hpv : forall s0 l0, sfx (off s0) l0 -> dep s0 = (dep s + 1)%Z -> length l0 < f ->
+              sim_res (parse_value f s0) (value_l strtod f (dep s + 1) l0) (dep s + 1) (length l0)).
+    { intros s0 l0 H0 Hd0 Hl0. rewrite <- Hd0. apply IH; assumption. }
+    destruct (Z.eqb_spec c 91) as [E91|E91].
+    { subst c. apply (parse_array_sim (parse_value f) (value_l strtod f (dep s + 1)) (dep s + 1) f Hpv Hstk
+                       (value_l_nil _ _) s r Hs eq_refl). lia. }
+    destruct (Z.eqb_spec c 123) as [E123|E123].
+    { subst c. apply (parse_object_sim (parse_value f) (value_l strtod f (dep s + 1)) (dep s + 1) f Hpv Hstk
+                       (value_l_nil _ _) s r Hs eq_refl). lia. }
+    cbn [sim_res]. eexists; reflexivity.
+  Qed.
+
+  (** * the entry point *)
+  Lemma drop_ws_nz_length : forall l, length (drop_ws_nz l) <= length l.
+  Proof.
+    induction l as [|c r IH]; cbn [drop_ws_nz length]; [lia|].
+    destruct (negb (c =? 0) && (c <=? 32))%Z; cbn [length]; lia.
+  Qed.
+
+  Lemma rnt_skip_sim : forall fuel s l, sfx (off s) l -> length l < fuel ->
+    exists s', rnt_skip fuel s = Ok s' /\ sfx (off s') (drop_ws_nz l).
+  Proof.
+    induction fuel as [|f IH]; intros s l Hs Hf; [lia|].
+    cbn [ParseDefs.rnt_skip]. destruct l as [|c r].
+    - rewrite (can_access0_nil _ Hs). exists s. split; [reflexivity | exact Hs].
+    - rewrite (can_access0_cons _ _ _ Hs). destruct (sfx_cons _ _ _ Hs) as [Hlt [Hrd Hr]].
+      rewrite Hrd. cbn [bind drop_ws_nz]. destruct (negb (c =? 0) && (c <=? 32))%Z.
+      + apply (IH (add_off s 1) r).
+        * cbn [add_off set_off off]. rewrite Nat.add_1_r. exact Hr.
+        * cbn [length] in Hf. lia.
+      + exists s. split; [reflexivity | exact Hs].
+  Qed.
+
+  Lemma skip_utf8_bom_sim s : off s = 0 ->
+    exists s2, skip_utf8_bom s = Ok s2 /\ dep s2 = dep s /\
+      sfx (off s2) (match starts [239; 187; 191]%Z L with Some r => r | None => L end).
+  Proof.
+    intros Hoff. unfold ParseDefs.skip_utf8_bom, ParseDefs.can_access. rewrite Hoff.
+    destruct (Nat.ltb_spec (0 + 2) len) as [H|H].
+    - rewrite (match_lit_sim [239; 187; 191]%Z 0 L sfx_0) by (rewrite L_length; cbn [length]; lia).
+      cbn [bind]. destruct (starts [239; 187; 191]%Z L) as [r|] eqn:E; cbn [is_some].
+      + destruct (starts_sfx _ _ _ _ sfx_0 E) as [Hr _]. eexists. split; [reflexivity|].
+        cbn [add_off set_off off dep]. rewrite Hoff. split; [reflexivity | exact Hr].
+      + exists s. split; [reflexivity|]. rewrite Hoff. split; [reflexivity | exact sfx_0].
+    - rewrite starts_short by (rewrite L_length; cbn [length]; lia).
+      exists s. split; [reflexivity|]. rewrite Hoff. split; [reflexivity | exact sfx_0].
+  Qed.
+
+  Theorem parse_refines_spec_sec rnt :
+    exists r, cJSON_ParseWithLengthOpts strtod never_fails content len rnt = Ok r /\
+      match text_l strtod L rnt with
+      | Some (t, rest) => pr_tree r = Some t /\ pr_end r = Some (len - length rest)
+      | None => pr_tree r = None
+      end.
+  Proof.
+    unfold cJSON_ParseWithLengthOpts, text_l. rewrite L_length.
+    destruct (Nat.eqb_spec len 0) as [E0|E0].
+    { eexists. split; [reflexivity|].
+      assert (HL : L = []) by (apply length_zero_iff_nil; rewrite L_length; exact E0).
+      rewrite HL, E0. reflexivity. }
+    cbn [ParseDefs.alloc never_fails negb]. cbv beta iota.
+    set (s1 := mkpst _ _ _ _).
+    destruct (skip_utf8_bom_sim s1 eq_refl) as [s2 [E2 [Hd2 Hs2]]]. rewrite E2. cbn [bind].
+    set (l1 := match starts [239; 187; 191]%Z L with Some r => r | None => L end) in *.
+    destruct (bsw_sim s2 l1 Hs2) as [s3 [E3 [Hd3 [Hpost _]]]]. rewrite E3. cbn [bind].
+    assert (Hl1 : length l1 <= len) by (pose proof (sfx_length _ _ Hs2); lia).
+    pose proof (drop_ws_length l1) as Hdl.
+    assert (Hdep3 : dep s3 = 0%Z) by (rewrite Hd3, Hd2; reflexivity).
+    destruct (drop_ws l1) as [|c r] eqn:Edw; cbn [ws_post] in Hpost.
+    { destruct (parse_value_stuck len s3 Hpost) as [s4 E4]. rewrite E4. cbn [bind].
+      rewrite value_l_nil. eexists. split; reflexivity. }
+    pose proof (parse_value_sim (S len) s3 (c :: r) Hpost ltac:(lia)) as H. rewrite Hdep3 in H.
+    destruct (value_l strtod (S len) 0 (c :: r)) as [[t rest]|]; cbn [sim_res] in H.
+    - destruct H as [s4 [E4 [Hs4 [Hd4 Hl4]]]]. rewrite E4. cbn [bind]. destruct rnt.
+      + destruct (rnt_skip_sim (S len) s4 rest Hs4) as [s5 [E5 Hs5]]; [lia|].
+        rewrite E5. cbn [bind]. destruct (drop_ws_nz rest) as [|c' r'].
+        * rewrite (can_access0_nil _ Hs5). cbn [negb]. eexists. split; reflexivity.
+        * rewrite (can_access0_cons _ _ _ Hs5). cbn [negb].
+          destruct (sfx_cons _ _ _ Hs5) as [_ [Hrd5 _]]. rewrite Hrd5. cbn [bind].
+          destruct (c' =? 0)%Z; cbn [negb].
+          -- eexists. split; [reflexivity|]. cbn [pr_tree pr_end]. split; [reflexivity|].
+             f_equal. apply sfx_off. exact Hs5.
+          -- eexists. split; reflexivity.
+      + eexists. split; [reflexivity|]. cbn [pr_tree pr_end]. split; [reflexivity|].
+        f_equal. apply sfx_off. exact Hs4.
+    - destruct H as [s4 E4]. rewrite E4. cbn [bind]. eexists. split; reflexivity.
+  Qed.
+
 End Refine.
+
+(** with no allocation failure the buffer-level parser computes exactly the list-level
+    specification on the declared bytes: same accept/reject, same tree, same parse end *)
+Theorem parse_refines_spec : forall strtod content len rnt,
+  strtod_ok strtod -> (len <= length content)%nat ->
+  exists r, cJSON_ParseWithLengthOpts strtod never_fails content len rnt = Ok r /\
+    match text_l strtod (firstn len content) rnt with
+    | Some (t, rest) => pr_tree r = Some t /\ pr_end r = Some (len - length rest)%nat
+    | None => pr_tree r = None
+    end.
+Proof.
+  intros strtod content len rnt Hok Hlen. exact (parse_refines_spec_sec strtod Hok content len Hlen rnt).
+Qed.
+
+(** corollary: without allocation failures the model never reads outside the declared buffer,
+    never overruns the string block and terminates within its fuel *)
+Corollary parse_never_fails_total : forall strtod content len rnt,
+  strtod_ok strtod -> (len <= length content)%nat ->
+  exists r, cJSON_ParseWithLengthOpts strtod never_fails content len rnt = Ok r.
+Proof.
+  intros strtod content len rnt Hok Hlen.
+  destruct (parse_refines_spec strtod content len rnt Hok Hlen) as [r [E _]]. exists r. exact E.
+Qed.
+
+(** non-vacuity: on  [1, "a"] x  (10 bytes, with the reference strtod) the specification accepts
+    with the two bytes " x" left over, and the model returns that tree with parse end 8; with
+    termination required both reject (no zero byte follows) *)
+Example parse_refines_spec_example :
+  let content := [91; 49; 44; 32; 34; 97; 34; 93; 32; 120]%Z in
+  (exists t, text_l strtod_ref (firstn 10 content) false = Some (t, [32; 120]%Z) /\
+     exists r, cJSON_ParseWithLengthOpts strtod_ref never_fails content 10 false = Ok r /\
+               pr_tree r = Some t /\ pr_end r = Some 8%nat) /\
+  text_l strtod_ref (firstn 10 content) true = None /\
+  (exists r, cJSON_ParseWithLengthOpts strtod_ref never_fails content 10 true = Ok r /\ pr_tree r = None).
+Proof.
+  cbv zeta. split; [|split].
+  - eexists. split; [vm_compute; reflexivity|]. eexists. split; [vm_compute; reflexivity|]. split; reflexivity.
+  - vm_compute. reflexivity.
+  - eexists. split; [vm_compute; reflexivity | reflexivity].
+Qed.
+
+Print Assumptions parse_refines_spec.
